@@ -1,5 +1,5 @@
 SPECIFICATION TraceSpec
-CONSTANTS Issue = {1, 2}  Margin = 5
+CONSTANTS Issue = {1, 2}  Margin = 5  StopAtFirst = TRUE
 INVARIANTS Complete CursorRule
 PROPERTIES MonotoneT IdempotentT
 POSTCONDITION TraceAccepted
